@@ -92,7 +92,24 @@ func main() {
 			die2("usage: simcheck build <world>|all")
 		}
 		if os.Args[2] == "all" {
+			// the worlds of the claimed checks (work-in-progress worlds are not
+			// allowed to break setup)
+			need := map[string]bool{}
+			for _, id := range propOrder() {
+				p := props[id]
+				if p.World != "" {
+					need[p.World] = true
+				}
+				for _, part := range p.Parts {
+					if pp := props[part]; pp != nil && pp.World != "" {
+						need[pp.World] = true
+					}
+				}
+			}
 			for _, w := range worldOrder() {
+				if !need[w] {
+					continue
+				}
 				if _, err := buildWorld(worlds[w]); err != nil {
 					die2("build %s: %v", w, err)
 				}
